@@ -13,8 +13,15 @@ COSTS8 = COSTS6 + [(1, 1, 0, 2), (1, 1, 2, 0)]
 COSTS12 = COSTS8 + [(2, 3, 7, 1), (5, 2, 3, 3), (1, 4, 10, 10), (4, 1, 1, 9)]
 
 
+# fractional cost vectors, written as integers over a common scale: (uf, ub, wd, rd, scale)
+FRAC = [(10, 10, 1, 1, 10), (5, 2, 1, 1, 10), (10, 10, 5, 25, 10), (30, 10, 1, 1, 10), (10, 10, 25, 0, 10)]
+
+
 def cv(c):
-    return dict(uf=c[0], ub=c[1], wd=c[2], rd=c[3])
+    d = dict(uf=c[0], ub=c[1], wd=c[2], rd=c[3])
+    if len(c) > 4:
+        d["scale"] = c[4]
+    return d
 
 
 def multistage(nmax, trajs=(0, 1), extra=2):
@@ -94,11 +101,13 @@ def ebox(tier, seed=0):
     """The trace box shared by the executor properties (C01-C04, C08, C09a, C11, C12, C18a)."""
     if tier == "quick":
         out = (multistage(12) + mixed(16) + revolve_family(12, (1, 2, 3, 4), COSTS8)
+               + revolve_family(9, (1, 2, 3), FRAC, cds=(0, 1, 2))
                + twolevel(12, 5, 3) + basic(12) + late_finalize())
     else:
         rnd = random.Random(seed)
         out = (multistage(26) + mixed(40)
                + revolve_family(30, (1, 2, 3, 4, 6), COSTS12, cds=(0, 1, 2, 3, 5))
+               + revolve_family(20, (1, 2, 3), FRAC, cds=(0, 1, 2, 4))
                + twolevel(30, 7, 4) + basic(40) + late_finalize())
         for _ in range(60):
             n = rnd.randint(41, 300)
